@@ -312,9 +312,20 @@ package kafka
 //@ func (*Writer).partitions
 //@   trusted performs a metadata round trip through the Transport; it does not touch the caller's messages (C12/C19 cover the exchange)
 //@   ensures result1 == nil ==> result0 >= 0
+//@ property C08 C07 C01 C10 C13
+// The partition list handed to the balancers is 0..n-1. The cache is written only by the Store below (guarantee: what is
+// stored is the identity list), so a cache hit may rely on that (assumption after the Load).
 //@ func loadCachedPartitions
-//@   trusted returns the cached slice 0..numPartitions-1 (its contents are the subject of C13)
-//@   ensures len(result) == numPartitions || numPartitions < 0
+//@   requires 0 <= numPartitions && numPartitions <= 0x10000000
+//@   option noframe
+//@   modifies heap
+//@   assume partitionsCache is written only by loadCachedPartitions, whose Store is proved to store the identity list
+//@   assumeat "partitionsCache.Load().([]int)" ok ==> (forall i :: 0 <= i && i < len(partitions) ==> partitions[i] == i)
+//@   callsite (*Value).Store requires forall i :: 0 <= i && i < len(partitions) ==> partitions[i] == i
+//@   ensures len(result) == numPartitions && (forall i :: 0 <= i && i < len(result) ==> result[i] == i)
+//@   loop 0 invariant -1 <= rangeindex && rangeindex < len(partitions) && len(partitions) == n && n >= numPartitions + 1 && fresh(partitions)
+//@   loop 0 invariant forall i :: 0 <= i && i <= rangeindex ==> partitions[i] == i
+//@ property C08 C07 C01 C10
 //@ func messageTooLarge
 //@   requires 0 <= i && i < len(msgs)
 //@   option noframe
